@@ -42,7 +42,7 @@ def plan(tier, seed):
 
 def fmt(src, width):
     from pico8.lua import lua
-    L = lua.Lua.from_lines([src], version=8)
+    L = lua.Lua.from_lines([src], version=ambient.VERSION[0])
     return b''.join(L.to_lines(writer_cls=lua.LuaFormatterWriter, writer_args={'indentwidth': width}))
 
 
@@ -50,7 +50,7 @@ def fmt_twice_same_args(src, width):
     """Two formatting passes that share one writer-args dict (what the cart writer does: a size-check pass, then the
     write pass)."""
     from pico8.lua import lua
-    L = lua.Lua.from_lines([src], version=8)
+    L = lua.Lua.from_lines([src], version=ambient.VERSION[0])
     args = {'indentwidth': width}
     a = b''.join(L.to_lines(writer_cls=lua.LuaFormatterWriter, writer_args=args))
     b = b''.join(L.to_lines(writer_cls=lua.LuaFormatterWriter, writer_args=args))
@@ -70,7 +70,7 @@ def fmt_cli(src, width, workdir, overwrite=False):
     if os.path.exists(pf):
         os.remove(pf)
     with open(p1, 'wb') as fh:
-        fh.write(rc.write_p8(regions, src, version=8))
+        fh.write(rc.write_p8(regions, src, version=ambient.VERSION[0]))
     rcode = tool.main([ambient.vflag(), 'luafmt'] + (['--overwrite'] if overwrite else []) + ['--indentwidth', str(width), p1])
     if rcode:
         raise RuntimeError('p8tool luafmt returned %r' % rcode)
@@ -403,7 +403,7 @@ def run_deep(spec, ctx, cli_dir):
             continue
         try:
             from pico8.lua import lua
-            lua.Lua.from_lines([src], version=8)
+            lua.Lua.from_lines([src], version=ambient.VERSION[0])
         except Exception as e:
             ctx.inconclusive_because('deep-nesting generator produced a program picotool rejects: %r' % (e,))
             return
